@@ -344,8 +344,22 @@ PROPS["C18"] = dict(
 )
 
 
+RECLAIM_REPL = {"mi_segment_check_free": "stub_check_free", "mi_segment_reclaim": "stub_segment_reclaim", "mi_segment_try_purge": "stub_segment_try_purge"}
+RECLAIM_STUBS = ["cursor over abandoned segments: returns up to 3 harness segments of the caller's sub-process; mi_segment_check_free / mi_segment_reclaim / mi_segment_try_purge / abandoned markers: recording stubs (reclaim asserts suitability, single adoption, same sub-process)",
+                 "_mi_heap_memid_is_suitable: reference copy of the suitability test (the real one is decided by C15.suitable)"]
+
+
+def reclaim_obs(prefix):
+    return [sg_ob("%s.%s" % (prefix, n), "h_" + n, replace=RECLAIM_REPL, unwind=8, unwindset=[], std_checks=False, cost=30, funcs=f,
+                  bounds="up to 3 abandoned segments with arbitrary memid (OS / arena 1-2, exclusive or not), used count, visit count; heap bound to arena 0/1/2; options symbolic")
+            for n, f in (("try_reclaim", ["mi_segment_try_reclaim", "mi_segment_get_reclaim_tries", "segment_count_is_within_target"]),
+                         ("reclaim_all", ["_mi_abandoned_reclaim_all"]),
+                         ("abandoned_collect", ["_mi_abandoned_collect"]),
+                         ("attempt_reclaim", ["_mi_segment_attempt_reclaim"]))]
+
+
 def c15():
-    return [ar_ob("C15.suitable", "h_suitable", funcs=["mi_arena_id_is_suitable", "_mi_arena_memid_is_suitable"], cost=5, bounds="all id/request/exclusive combinations"),
+    return reclaim_obs("C15") + [ar_ob("C15.suitable", "h_suitable", funcs=["mi_arena_id_is_suitable", "_mi_arena_memid_is_suitable"], cost=5, bounds="all id/request/exclusive combinations"),
             ] + [ar_ob("C15.arena_specific.req%d" % r, "h_arena_specific", defines=["REQ=%d" % r], replace={"mi_arena_try_alloc_at": "stub_try_alloc_at"}, cost=100,
                   funcs=["_mi_arena_alloc_aligned", "mi_arena_try_alloc", "mi_arena_try_alloc_at_id", "mi_arena_try_alloc_at", "mi_arena_id_is_suitable", "mi_arena_reserve"],
                   bounds="2 arenas x 8 blocks (each exclusive or not), request id %d (0 = none, 3 = unknown), any size up to the arena, any alignment" % r) for r in (0, 1, 2, 3)] + [
@@ -715,6 +729,7 @@ def c09():
                          funcs=["mi_arena_segment_os_clear_abandoned", "mi_arena_segment_os_mark_abandoned", "_mi_arena_segment_clear_abandoned"],
                          bounds="abandoned OS list of %d segments, reclaiming entry %d (%s)" % (ln, tg, "not on the list" if tg >= ln else "on the list")))
     obs += lists_obs("C09")[:1]
+    obs += reclaim_obs("C09")
     return obs
 
 
